@@ -92,6 +92,24 @@ CLAIMED = {
             'solver-enumerated bounded histories (z3 all-SAT over finite '
             'operation/argument/read variables) executed on the real class '
             'and compared with a reference model and a fresh object'),
+    'C08': ('3/C08',
+            'For SourceCatalog (two scenes: mixed sources incl. a failing '
+            'quadratic fit and a masked source; a grid of identical '
+            'sources) and ApertureStats (4 positions incl. off-image), '
+            'every index expression over 4 sources (ints, slices with '
+            'negative/None bounds and steps, int lists, all boolean masks, '
+            'get_label(s)/get_id(s)) combined with a pre-read of any public '
+            'property on the parent: every public per-source property of '
+            'the child equals the indexed value of a fully evaluated '
+            'parent (NaN-aware, units, scalar results). Extra-property '
+            'operations / named photometry on parent or child (histories '
+            '<= 2) never change the other catalog.',
+            'solver-enumerated finite index/pre-read/history space on '
+            'concrete scenes; quick tier pre-reads a seed-rotated third of '
+            'the properties, thorough all',
+            'solver-enumerated index expressions and cache histories (z3 '
+            'all-SAT) executed on the real catalog classes, compared with '
+            'the indexed values of an independently evaluated parent'),
 }
 
 NOT_YET = {}
